@@ -104,7 +104,8 @@ def build_operator(kind, cfg, label, square=None, dims=None):
         return _annotate(O.Permutation(p, dt), anns)
     if kind in ("Transpose", "Adjoint"):
         r, c = dim2(label)
-        inner = AbstractOp(label + "_in", c, r, dt)
+        pa = cfg.get("part_anns")
+        inner = AbstractOp(label + "_in", c, r, dt, tuple(getattr(cola, a) for a in (pa[0] if pa else ())))
         return _annotate(getattr(O, kind)(inner), anns)
     if kind in ("Product", "Sum", "Kronecker", "KronSum", "BlockDiag"):
         parts = []
@@ -123,8 +124,10 @@ def build_operator(kind, cfg, label, square=None, dims=None):
             for i in range(ar):
                 r = sym_dim(f"{label}_r{i}")
                 ds.append((r, r) if (sqr or kind == "KronSum") else (r, sym_dim(f"{label}_c{i}")))
+        pa = cfg.get("part_anns")
         for i, (r, c) in enumerate(ds):
-            parts.append(AbstractOp(f"{label}{i}", r, c, dt))
+            pann = tuple(getattr(cola, a) for a in (pa[i % len(pa)] if pa else ()))
+            parts.append(AbstractOp(f"{label}{i}", r, c, dt, pann))
         if kind == "BlockDiag":
             mults = []
             for i in range(ar):
@@ -143,8 +146,12 @@ def build_operator(kind, cfg, label, square=None, dims=None):
 
 
 def _annotate(op, anns):
-    for a in anns:
-        op = a(op)   # patched WrapMeta.__call__ (contract stub)
+    CTX.declaring_inputs = True
+    try:
+        for a in anns:
+            op = a(op)   # patched WrapMeta.__call__ (contract stub)
+    finally:
+        CTX.declaring_inputs = False
     # declared annotations are assumed true (the property's proviso)
     from vcgen.absop import holds
     for a in anns:
@@ -324,6 +331,7 @@ class RuleRunner:
             for h in self.spec.get("hyps", lambda args, cfg: [])(args, cfg):
                 CTX.assume(h)
             CTX.n_pre = len(CTX.obs)
+            CTX.check_declarations = bool(self.spec.get("check_annotations"))
             snap = [_snapshot(a) for a in args]
             r = impl(*args)
             CTX.frame_ok = [nm for a, sn in zip(args, snap) for nm in _changed(a, sn)]
@@ -356,6 +364,9 @@ class RuleRunner:
                         (not changed, "modified: " + ", ".join(changed) if changed else "shallow field identity", None))
                     ens = contract.ensures(*args, r) if len(inspect.signature(contract.ensures).parameters) == len(args) + 1 \
                         else contract.ensures(*_pad(args, contract), r)
+                    if self.spec.get("check_annotations"):
+                        ens = list(ens) if not self.spec.get("only_annotations") else []
+                        ens += annotation_clauses(args, r)
                     if self.spec.get("post") is not None:
                         ens = list(ens) + list(self.spec["post"](sig, choice, cfg, args, r, list(log)))
                     for label, fm in ens:
@@ -391,6 +402,25 @@ class RuleRunner:
     def _ob_unsupported(self, sig, what, msg):
         self.chk.add(Ob(key=f"{self.prop}/{self.fname}{_sigstr(sig)}/{what}", fn=self.fname, clause=what, engine="ALG",
                         status=UNSUPPORTED, detail=msg))
+
+
+def annotation_clauses(args, r):
+    """C05: every annotation reported by a returned operator (or by get_annotations) is true of the represented matrix"""
+    from cola.ops.operator_base import LinearOperator
+    from vcgen.absop import holds
+    out = []
+    if isinstance(r, (set, frozenset)):
+        A = [x for x in args if isinstance(x, LinearOperator)][0]
+        for a in sorted(r, key=lambda c: c.__name__):
+            out.append((f"reported {a.__name__} is true of M(A)", holds(a, M(A))))
+        if not r:
+            out.append(("no annotation reported", True))
+        return out
+    ops = [r] if isinstance(r, LinearOperator) else [x for x in (r if isinstance(r, (tuple, list)) else []) if isinstance(x, LinearOperator)]
+    for j, op in enumerate(ops):
+        for a in sorted(getattr(op, "annotations", ()), key=lambda c: c.__name__):
+            out.append((f"result[{j}] reports {a.__name__}: true of its matrix", holds(a, M(op))))
+    return out
 
 
 def _snapshot(a):
